@@ -14,7 +14,8 @@ THEOREMS = [P + t for t in (
     "collect_spec", "complete", "complete_named", "sound", "perm_invariant", "keys_exact", "keys_perm_invariant",
     "table_total", "ids_injective", "pdp_total", "pdp_request_wellformed", "pdp_no_extra",
     "collected_keys", "collected_in_resource_category",
-    "log_counts", "log_perm_invariant", "legacy_mirror_counterexample")]
+    "log_counts", "log_perm_invariant", "inferSite_idem", "asm_eq_topo", "asm_inference_matters",
+    "legacy_mirror_counterexample")]
 TRUSTED_BASE = [
     "gen/authz.py: AST patterns for the attribute-id constants, ATTRIBUTE_TYPES_AND_CATEGORIES, NSTYPE_LUT, the literals "
     "'sliver'/'switch-p4'/'UNKNOWN-SITE', the service-type set and exemption type of _collect_attributes_from_ns_sliver, "
@@ -25,18 +26,24 @@ TRUSTED_BASE = [
     "checked differentially on every run",
     "the iteration order of topo.nodes / network_services / facilities and the sliver built by get_sliver() are taken from the "
     "topology API (C07/C02 territory); sliver *contents* in the model request come from the generator's own description",
+    "the ASM path is modelled as recordSites (the site inference of NetworkService.__validate_nstype_constraints: exactly one "
+    "owner site, none declared) followed by the same fold; owner sites of a service's interfaces are supplied by the harness "
+    "from the slice description; the GraphML round trip itself is C01's",
     "LogCollector 'sites'/'facilities' are Python sets, modelled as duplicate-free lists and compared sorted; "
     "LogCollector.__str__ (set iteration order) is not modelled",
 ]
 ASSUMPTIONS = [
-    "the slice has been validated (Topology.validate() sets the site of single-site services; the collector's own comment "
-    "requires it) and element names are unique (topo.nodes / network_services are dictionaries by name)",
+    "a topology *object* handed to the collectors has been validated (Topology.validate() records the site of single-site "
+    "services; the collector's own comment requires it); a serialised model need not be - the ASM path validates itself, "
+    "modelled as recordSites and exercised on models serialised before validate() ever ran; validate() is assumed to "
+    "succeed (C10 decides when it does); element names are unique (topo.nodes / network_services are dictionaries by name)",
     "one collector object per collection (collect_resource_attributes on a fresh ResourceAuthZAttributes / LogCollector)",
 ]
 RULE = ("slices of 0..7 nodes/services/facilities over 3 sites with several PortMirror/FABNetv4Ext/FABNetv6Ext services per site, "
         "in-slice and outside mirrored ports, unset sites; every permutation of the stored order for <= 5 elements, 24 random "
         "ones beyond; run through the real fold on stand-in topology containers of real slivers, through the public sliver "
-        "dispatch, and through real ExperimentTopology objects (several creation orders) and their serialised ASM; "
+        "dispatch, and through real ExperimentTopology objects (several creation orders; service sites declared or left to "
+        "validate()) collected three ways: validated object, ASM serialised after validate(), ASM serialised before it; "
         "non-trivial = >= 2 services needing a site attribute; distinct by (canonical slice in stored order, entry point)")
 
 RESOURCE_CATEGORY = "urn:oasis:names:tc:xacml:3.0:attribute-category:resource"
@@ -386,7 +393,7 @@ def gen_tspec(rng, size):
         if ln:
             labelled.append(ln)
         svcs.append({"name": "br%d" % i, "t": "L2Bridge", "ifs": [ref], "labels": [ln],
-                     "bw": rng.choice([None, 1, 10]), "mp": None, "fac": None})
+                     "bw": rng.choice([None, 1, 10]), "mp": None, "fac": None, "decl": rng.random() < 0.3})
     for i in range(rng.randint(0, size + 1)):
         if not free:
             break
@@ -399,11 +406,11 @@ def gen_tspec(rng, size):
             free.remove(ref)
             mp = rng.choice(labelled) if (labelled and rng.random() < 0.5) else "outside%d" % rng.randint(0, 1)
             svcs.append({"name": "pm%d" % i, "t": "PortMirror", "ifs": [ref], "labels": [None], "bw": rng.choice([None, 5]),
-                         "mp": mp, "fac": None})
+                         "mp": mp, "fac": None, "decl": rng.random() < 0.3})
         elif r < 0.85:
             ref = free.pop()
             svcs.append({"name": "ex%d" % i, "t": rng.choice(["FABNetv4Ext", "FABNetv6Ext"]), "ifs": [ref], "labels": [None],
-                         "bw": rng.choice([None, 2]), "mp": None, "fac": None})
+                         "bw": rng.choice([None, 2]), "mp": None, "fac": None, "decl": rng.random() < 0.3})
         elif facs and not any(s["fac"] is not None for s in svcs):
             ref = free.pop()
             svcs.append({"name": "sts%d" % i, "t": "L2STS", "ifs": [ref], "labels": [None], "bw": None, "mp": None, "fac": 0})
@@ -419,20 +426,20 @@ def corner_tspecs():
         {"name": "pmin", "t": "PortMirror", "ifs": [(0, 2, 0)], "labels": [None], "bw": None, "mp": "inport", "fac": None}]}]
 
 
-def build_topology(ts, node_order, svc_order):
+def build_topology(ts, node_order, svc_order, validate=True):
     from fim.user.topology import ExperimentTopology
     from fim.slivers.capacities_labels import Capacities, Labels
     from fim.slivers.component_catalog import ComponentModelType
     from fim.slivers.network_service import ServiceType
     t = ExperimentTopology()
     try:
-        return _build_into(t, ts, node_order, svc_order)
+        return _build_into(t, ts, node_order, svc_order, validate)
     except Exception:
         dispose(t)
         raise
 
 
-def _build_into(t, ts, node_order, svc_order):
+def _build_into(t, ts, node_order, svc_order, validate=True):
     from fim.slivers.capacities_labels import Capacities, Labels
     from fim.slivers.component_catalog import ComponentModelType
     from fim.slivers.network_service import ServiceType
@@ -458,6 +465,9 @@ def _build_into(t, ts, node_order, svc_order):
         kw = {}
         if s["bw"] is not None:
             kw["capacities"] = Capacities(bw=s["bw"])
+        if s.get("decl"):
+            # site declared by the user (must be the one validate() would infer); otherwise inferred by validate()
+            kw["site"] = ts["nodes"][s["ifs"][0][0]]["site"]
         if s["t"] == "PortMirror":
             t.add_port_mirror_service(name=s["name"], from_interface_name=s["mp"], to_interface=ifs[0], **kw)
         else:
@@ -466,7 +476,8 @@ def _build_into(t, ts, node_order, svc_order):
         for i, ln in zip(ifs, s["labels"]):
             if ln is not None:
                 i.get_peers()[0].set_property("labels", Labels(local_name=ln))
-    t.validate()
+    if validate:
+        t.validate()
     return t
 
 
@@ -499,6 +510,31 @@ def model_of_tspec(ts, t):
     return {"nodes": nodes, "svcs": svcs, "facs": list(t.facilities.keys()), "ifaces": ifaces}
 
 
+def raw_of_tspec(ts, sl):
+    """The slice as its serialised model carries it before validate(): declared sites only, plus what validate() reads
+    (owner sites of each service's interfaces; whether the type limits the number of sites). `sl` (model_of_tspec) gives
+    the stored order; the site inference itself is done by the Lean model (`recordSites`)."""
+    from fim.slivers.network_service import NetworkServiceSliver, ServiceType
+    lim = {st.name: NetworkServiceSliver.ServiceConstraints[st].num_sites != NetworkServiceSliver.NO_LIMIT
+           for st in NetworkServiceSliver.ServiceConstraints}
+    user = {s["name"]: s for s in ts["svcs"]}
+    nports = 8
+    svcs = []
+    for s in sl["svcs"]:
+        r = dict(s)
+        u = user.get(s["name"])
+        if u is not None:
+            r["os"] = [ts["nodes"][x[0]]["site"] for x in u["ifs"]] + ([ts["facs"][u["fac"]]["site"]] if u["fac"] is not None else [])
+            r["site"] = ts["nodes"][u["ifs"][0][0]]["site"] if u.get("decl") else None
+        else:
+            # services created with their node / component / facility: every port belongs to that one owner
+            r["os"] = [s["site"]] * (nports if s["t"] == "P4" and ts["switch"] and s["name"] == ts["switch"]["name"] + "-ns" else 1)
+            r["site"] = None
+        r["lim"] = lim[s["t"]]
+        svcs.append(r)
+    return {"nodes": sl["nodes"], "svcs": svcs, "facs": sl["facs"], "ifaces": sl["ifaces"]}
+
+
 def dispose(t):
     """Remove the topology's graph (and the re-import of it made by the ASM path, same GraphID) from the shared store:
     every lookup in the store scans all stored graphs."""
@@ -506,6 +542,22 @@ def dispose(t):
         t.graph_model.delete_graph()
     except Exception:
         pass
+
+
+def collect_asm(ser):
+    """(authz reply, log reply) from a serialised model through the public entry point (source=NetworkxASM)."""
+    from fim.authz.attribute_collector import ResourceAuthZAttributes
+    from fim.logging.log_collector import LogCollector
+    from fim.graph.slices.networkx_asm import NetworkXGraphImporter, NetworkXASMFactory
+    asm = NetworkXASMFactory.create(NetworkXGraphImporter().import_graph_from_string(graph_string=ser))
+    try:
+        az = ResourceAuthZAttributes()
+        az.collect_resource_attributes(source=asm)
+        lc = LogCollector()
+        lc.collect_resource_attributes(source=asm)
+        return _authz_reply(az), _log_reply(lc)
+    finally:
+        asm.delete_graph()      # the importer stored the ASM under a fresh GraphID
 
 
 def collect_real(t, with_asm=True):
@@ -521,17 +573,7 @@ def collect_real(t, with_asm=True):
     lc.collect_resource_attributes(source=t)
     out["log_topo"] = _log_reply(lc)
     if with_asm:
-        ser = t.serialize()
-        asm = NetworkXASMFactory.create(NetworkXGraphImporter().import_graph_from_string(graph_string=ser))
-        try:
-            az = ResourceAuthZAttributes()
-            az.collect_resource_attributes(source=asm)
-            out["authz_asm"] = _authz_reply(az)
-            lc = LogCollector()
-            lc.collect_resource_attributes(source=asm)
-            out["log_asm"] = _log_reply(lc)
-        finally:
-            asm.delete_graph()      # the importer stored the ASM under a fresh GraphID
+        out["authz_asm"], out["log_asm"] = collect_asm(t.serialize())
     return out
 
 
@@ -741,14 +783,23 @@ def run_tspec(ts, rng, k, with_asm=True):
     for no, so in topo_orders(ts, rng, k):
         run = {"node_order": no, "svc_order": so}
         try:
-            t = build_topology(ts, no, so)
+            t = build_topology(ts, no, so, validate=False)
+            pre = t.serialize()         # the model as a client submits it: validate() has never run on it
+            try:
+                t.validate()
+            except Exception:
+                dispose(t)
+                raise
         except Exception as e:
             run["build_error"] = err_kind(e)
             runs.append(run)
             continue
         try:
             run["slice"] = model_of_tspec(ts, t)
+            run["raw"] = raw_of_tspec(ts, run["slice"])
             run["out"] = collect_real(t, with_asm)
+            if with_asm:
+                run["out"]["authz_asm_pre"], run["out"]["log_asm_pre"] = collect_asm(pre)
         except Exception as e:
             run["collect_error"] = "%s: %s" % (err_kind(e), e)
         finally:
@@ -782,19 +833,25 @@ def judge_tspec(ts, runs, res, with_asm=True):
             a0 = a
         check_log(sl, out["log_topo"], res, case, "topo")
         if with_asm:
-            b = out["authz_asm"]
-            b0 = b[0] if isinstance(b, tuple) else b
-            if a0[0] == "ok" and b0[0] == "ok":
-                x, y = canon_attrs(a0), canon_attrs(b0)
-                for key in sorted(set(x) | set(y)):
-                    if x.get(key) != y.get(key):
-                        res.violation("C11:topo-vs-asm:" + _short(key), "attributes collected from the topology and from its serialised "
-                                      "model differ (%s)" % _short(key), case, expected=x.get(key), observed=y.get(key))
-            elif a0[0] != b0[0]:
-                res.violation("C11:topo-vs-asm:raises", "collection succeeds on one of topology / ASM and raises on the other", case)
-            if canon_log(out["log_topo"]) != canon_log(out["log_asm"]):
-                res.violation("C11:topo-vs-asm:log", "accounting summary from the topology and from its serialised model differ", case,
-                              expected=canon_log(out["log_topo"]), observed=canon_log(out["log_asm"]))
+            for key, lkey, tag, what in (("authz_asm", "log_asm", "topo-vs-asm", "its serialised model"),
+                                         ("authz_asm_pre", "log_asm_pre", "topo-vs-asm-prevalidate",
+                                          "the model serialised before validate() was run")):
+                b = out[key]
+                b0 = b[0] if isinstance(b, tuple) else b
+                if isinstance(b, tuple):
+                    # the request built from the model must be complete in its own right
+                    check_authz(sl, b[0], b[1], b[2], res, case, tag)
+                if a0[0] == "ok" and b0[0] == "ok":
+                    x, y = canon_attrs(a0), canon_attrs(b0)
+                    for k in sorted(set(x) | set(y)):
+                        if x.get(k) != y.get(k):
+                            res.violation("C11:%s:%s" % (tag, _short(k)), "attributes collected from the validated topology and from %s "
+                                          "differ (%s)" % (what, _short(k)), case, expected=x.get(k), observed=y.get(k))
+                elif a0[0] != b0[0]:
+                    res.violation("C11:%s:raises" % tag, "collection succeeds on one of topology / model and raises on the other", case)
+                if canon_log(out["log_topo"]) != canon_log(out[lkey]):
+                    res.violation("C11:%s:log" % tag, "accounting summary from the validated topology and from %s differ" % what, case,
+                                  expected=canon_log(out["log_topo"]), observed=canon_log(out[lkey]))
         rows.append((sl, a0, out["log_topo"]))
     if rows:
         check_orders(rows, res, "topology", "topo")
@@ -809,7 +866,7 @@ def topo_runs(ctx, n=None, k=None):
     key = (n, k)
     cache = ctx.__dict__.setdefault("_c11_topo", {})
     if key not in cache:
-        tcases, trng = _tcases(ctx, "topo", n or ctx.scale(24, 250))
+        tcases, trng = _tcases(ctx, "topo", n or ctx.scale(18, 220))
         cache[key] = [(ts, run_tspec(ts, trng, k or ctx.scale(3, 4))) for ts in tcases]
     return cache[key]
 
@@ -876,14 +933,15 @@ def correspondence(ctx, res):
             if "out" not in run:
                 res.count("topo-not-collected")
                 continue
-            sl, out = run["slice"], run["out"]
-            for k in ("authz_topo", "authz_asm"):
+            raw, out = run["raw"], run["out"]
+            for k in ("authz_topo", "authz_asm", "authz_asm_pre"):
                 r = out[k]
-                reqs.append(["authz", sl]); impl.append(r[0] if isinstance(r, tuple) else r)
-            for k in ("log_topo", "log_asm"):
-                reqs.append(["log", sl]); impl.append(out[k])
+                reqs.append(["authz-asm", raw]); impl.append(r[0] if isinstance(r, tuple) else r)
+            for k in ("log_topo", "log_asm", "log_asm_pre"):
+                reqs.append(["log-asm", raw]); impl.append(out[k])
             res.count("entry:topology", 2)
             res.count("entry:asm", 2)
+            res.count("entry:asm-prevalidate", 2)
     model = LeanDriver("C11").run([json.dumps(r) for r in reqs])
     for idx, (r, i, m) in enumerate(zip(reqs, impl, model)):
         res.evaluations += 1
@@ -897,9 +955,6 @@ def correspondence(ctx, res):
         if nontrivial(r[1]):
             res.nontrivial.add(canon(r))
         mm = json.loads(m)
-        if r[0] == "log" and i[0] == "ok" and mm[0] == "ok":
-            # sets come back sorted from both sides already
-            pass
         if idx >= n_exact:
             # real topologies: the order of a node's components inside its sliver is the graph's neighbour order
             # (topology API, not the collectors) - compare the component values as a multiset
@@ -937,7 +992,7 @@ def full_request(res):
 
 
 def oracle(ctx, res, n=None, nt=None):
-    cases, rng = _cases(ctx, "oracle", n or ctx.scale(300, 4000))
+    cases, rng = _cases(ctx, "oracle", n or ctx.scale(250, 4000))
     full_request(res)
     for fn, c in load_corpus():
         res.count("corpus:" + fn)
